@@ -179,10 +179,17 @@ func HarnessC06_escape() {
 		tok = c06AllTokens[ndChoice(len(c06AllTokens))]
 		leaf = func() any { return 7 }
 	} else {
+		// thorough: the second position is free as well, strings up to 8
+		// bytes; leaves stay concrete (the escape does not look at them)
 		pos2 = ndChoice(5)
 		tok = c06AllTokens[ndChoice(len(c06AllTokens))]
+		leaf = func() any { return 7 }
 	}
-	s := ndStr(c06N(), "print")
+	n := c06N()
+	if vTier() > 0 {
+		n = 7
+	}
+	s := ndStr(n, "print")
 	tree := c06Skeleton(pos, s, pos2, tok, leaf)
 	vObserve("tree", tree)
 	esc := c06EscTree(tree)
